@@ -19,7 +19,7 @@ func paramSet(tax, slash string) ParamSet {
 	return p
 }
 
-var allAccounts = []sdk.AccAddress{AU, O1, O2, C1, C2, P1, P2, P3, W1, XX}
+var allAccounts = []sdk.AccAddress{AU, O1, O2, C1, C2, P1, P2, P3, P4, W1, XX}
 
 // AlphaOpts selects the action families of a lifecycle-style alphabet.
 type AlphaOpts struct {
@@ -233,7 +233,8 @@ var tFees2 = Template{Name: "fees2", Consumer: "C1", Service: "a", Providers: []
 func scFees(ps ParamSet, wrong bool, depth, blocks, msgs int) *Scenario {
 	o := AlphaOpts{RespKinds: []string{"ok"},
 		Withdraw: []string{"O1:", "O1:P1", "O1:P2", "O2:", "O2:P3", "O2:Pp"},
-		SetW:     []string{"O1:W1", "O1:O1", "O2:W1"}}
+		SetW:     []string{"O1:W1", "O1:O1", "O2:W1"},
+		BindOps:  []Action{actBind("ab", "P1", "O1", 10, "p2", 1), actBind("a", "P4", "O1", 10, "p2", 1)}}
 	if wrong {
 		o.Withdraw = append(o.Withdraw, "O2:P1", "XX:", "XX:P1")
 		o.SetW = append(o.SetW, "XX:W1")
@@ -241,7 +242,7 @@ func scFees(ps ParamSet, wrong bool, depth, blocks, msgs int) *Scenario {
 	sc := &Scenario{
 		Name: "S-FEES", Params: ps,
 		Funds: []Funding{{O1, 100}, {O2, 100}, {C1, 60}}, Extra: allAccounts,
-		Setup: []Action{actDefine("a", "AU"),
+		Setup: []Action{actDefine("a", "AU"), actDefine("ab", "AU"),
 			actBind("a", "P1", "O1", 10, "p2", 1), actBind("a", "P2", "O1", 10, "p3vv", 1),
 			actBind("a", "P3", "O2", 10, "p2", 1), actBind("a", "Pp", "O2", 10, "p2", 1)},
 		Templates: []Template{tFees, tFees2},
@@ -263,6 +264,7 @@ var (
 	tModPoor = Template{Name: "modpoor", Consumer: "C2", Service: "a", Providers: []string{"P1", "P2"}, Cap: 5, Timeout: 1, Repeated: true, Freq: 1, Total: 2, Module: ModOther, Threshold: 1}
 	tModCap  = Template{Name: "modcap", Consumer: "C1", Service: "a", Providers: []string{"P1", "P2"}, Cap: 1, Timeout: 1, Repeated: true, Freq: 1, Total: 2, Module: ModOther, Threshold: 2}
 	tPoorOne = Template{Name: "poorone", Consumer: "C2", Service: "a", Providers: []string{"P1", "P2"}, Cap: 5, Timeout: 1}
+	tModHalf = Template{Name: "modhalf", Consumer: "C2", Service: "a", Providers: []string{"P1", "P2"}, Cap: 5, Timeout: 1, Repeated: true, Freq: 1, Total: 2, Module: ModHalf, Threshold: 1}
 	tRep1    = Template{Name: "rep1", Consumer: "C1", Service: "a", Providers: []string{"P2"}, Cap: 5, Timeout: 1, Repeated: true, Freq: 1, Total: 1}
 	tF3      = Template{Name: "f3", Consumer: "C1", Service: "a", Providers: []string{"P2"}, Cap: 5, Timeout: 1, Repeated: true, Freq: 3, Total: -1}
 	tOneTot  = Template{Name: "onetot", Consumer: "C1", Service: "a", Providers: []string{"P2"}, Cap: 5, Timeout: 1, Repeated: false, Freq: 0, Total: 3}
@@ -274,7 +276,7 @@ var (
 func scMod(ps ParamSet, tmpls []Template, o AlphaOpts, depth, blocks, msgs int) *Scenario {
 	sc := scLife(ps, tmpls, o, depth, blocks, msgs)
 	sc.Name = "S-MOD"
-	sc.Rig = RigConfig{CallbackModules: []string{ModOther}}
+	sc.Rig = RigConfig{CallbackModules: []string{ModOther}, ResponseOnlyModules: []string{ModHalf}}
 	return sc
 }
 
@@ -313,6 +315,7 @@ func scBindAuth(ps ParamSet, depth, blocks, msgs int) *Scenario {
 func bindOpsNames() []Action {
 	return []Action{
 		actDefine("a", "AU"), actDefine("ab", "AU"), actDefine("a", "XX"),
+		actDefine("Ab", "AU"), actDefine("Ab", "XX"), // names are case sensitive; a second "Ab" must be rejected like any other
 		actBind("a", "P1", "O1", 10, "p1", 1),
 		actBind("ab", "P1", "O1", 10, "p2v", 1),
 		actBind("ab", "P1", "O2", 10, "p1", 1),
@@ -377,5 +380,23 @@ func scFeesRefund(ps ParamSet, depth, blocks, msgs int) *Scenario {
 	sc.Alpha = func(sc *Scenario, v *View) []Action {
 		return append(base(sc, v), actRefund("a", "P1", "O1"), actEnable("a", "P1", "O1", 10))
 	}
+	return sc
+}
+
+// scFeesSelf: S-FEES where the provider P2 (owned by O1) is itself the owner of provider P4, and withdraws for itself.
+func scFeesSelf(ps ParamSet, depth, blocks, msgs int) *Scenario {
+	o := AlphaOpts{RespKinds: []string{"ok"},
+		Withdraw: []string{"O1:", "O1:P2", "P2:", "P2:P2", "P2:P4"},
+		SetW:     []string{"P2:W1"}}
+	sc := &Scenario{
+		Name: "S-FEES(self)", Params: ps,
+		Funds: []Funding{{O1, 100}, {O2, 100}, {C1, 60}, {P2, 50}}, Extra: allAccounts,
+		Setup: []Action{actDefine("a", "AU"),
+			actBind("a", "P1", "O1", 10, "p2", 1), actBind("a", "P2", "O1", 10, "p2", 1), actBind("a", "P4", "P2", 10, "p3vv", 1)},
+		Templates: []Template{{Name: "feesself", Consumer: "C1", Service: "a", Providers: []string{"P1", "P2", "P4"}, Cap: 5, Timeout: 3}},
+		Alpha:     lifeAlpha(o),
+		Depth:     depth, MaxBlocks: blocks, MaxMsgs: msgs,
+	}
+	sc.Setup = append(sc.Setup, sc.actCall(0), actE())
 	return sc
 }
